@@ -93,12 +93,17 @@ def run(ck):
         ck.analysed('bin::' + f['path'])
 
     # ---- R15.1 -------------------------------------------------------------
+    # the component filter may sit in generate_ui itself or in a helper of the bin crate that the refusal test calls
     filt = None
-    for n in walk(gu['body']):
-        if n.get('k') == 'Match' and n.get('x') == 'matches' and 'Utf8Component' in (B.ty(n['e']) or ''):
-            filt = n
-    ck.floor('R15.1', 1 if filt is not None else 0, 1, 'matches! over Utf8Component in generate_ui')
+    ffn = None
+    for f in [gu] + [x for x in B.fn_list if x is not gu and x.get('body') is not None and any((H.callee(c) or H.callee_decl(c)) == x['path'] for c in H.calls_in(gu['body']))]:
+        for n in walk(f['body']):
+            if n.get('k') == 'Match' and n.get('x') == 'matches' and 'Utf8Component' in (B.ty(n['e']) or ''):
+                filt, ffn = n, f
+    ck.floor('R15.1', 1 if filt is not None else 0, 1, 'matches! over Utf8Component in generate_ui (or a helper it calls)')
     if filt is not None:
+        if ffn is not gu:
+            ck.analysed('bin::' + ffn['path'])
         admitted = []
         wildcard_true = False
         for arm in filt['arms']:
@@ -113,27 +118,101 @@ def run(ck):
         ok = set(admitted) <= {'CurDir', 'Normal'} and not wildcard_true and bool(admitted)
         ck.ob('R15.1', 'admitted-components', ok, B.loc(filt), 'admitted: %s' % sorted(set(admitted)))
         ck.ob('R15.1', 'normal-admitted', 'Normal' in admitted, B.loc(filt), 'plain names must be accepted (else every source is refused)')
-        pm = H.parents(gu)
-        # chain: closure(all) <- MCall all(recv = components()) <- Not <- closure(any) <- MCall any <- And <- If cond
-        chain = [a for a in H.ancestors(gu, filt)]
-        all_call = next((a for a in chain if a.get('k') == 'MCall' and a.get('m') == 'all'), None)
-        any_call = next((a for a in chain if a.get('k') == 'MCall' and a.get('m') == 'any'), None)
-        the_if = next((a for a in chain if a.get('k') == 'If'), None)
-        ok_all = all_call is not None and all_call['recv'].get('k') == 'MCall' and all_call['recv'].get('m') == 'components'
-        ck.ob('R15.1', 'applied-to-all-components', ok_all, B.loc(filt), 'filter is the predicate of components().all(..)')
-        neg = all_call is not None and pm.get(id(all_call), {}).get('k') == 'Unary' and pm[id(all_call)].get('op') == 'Not'
-        ck.ob('R15.1', 'all-negated-inside-any', bool(neg and any_call is not None), B.loc(filt), 'any(|p| !p.components().all(..))')
-        if any_call is not None:
-            src = pp(any_call['recv'])
-            ck.ob('R15.1', 'over-every-source', 'sources' in src and not re.search(r'\b(skip|take|filter|step_by|rev|last|first)\b', src), B.loc(any_call), 'iterates %s' % src)
+
+        # Meaning of boolean expressions built from the filter, as a small algebra:
+        #   ('comp', True)   holds for a component iff it is admitted
+        #   ('path', q)      a predicate on one path:  q = 'all-ok' (every component admitted) | 'some-bad' (its negation)
+        #   ('srcs', q)      a predicate on the source list: q = 'exists-bad' (some source has a bad component) | 'all-good'
+        NEG = {'all-ok': 'some-bad', 'some-bad': 'all-ok', 'exists-bad': 'all-good', 'all-good': 'exists-bad'}
+
+        def tail_of(body):
+            x = body
+            while x.get('k') in ('Block', 'DropTemps', 'Paren') and not x.get('stmts') and 'e' in x:
+                x = x['e']
+            return x
+
+        def meaning(f, e, depth=0):
+            """(level, quality) of boolean expression e in fn f, or None if not understood."""
+            e = H.strip_refs(e)
+            while e.get('k') in ('Paren', 'DropTemps') or (e.get('k') == 'Block' and not e.get('stmts') and 'e' in e):
+                e = H.strip_refs(e['e'])
+            if depth > 8:
+                return None
+            if e is filt:
+                return ('comp', 'ok')
+            if e.get('k') == 'Unary' and e.get('op') == 'Not':
+                m_ = meaning(f, e['e'], depth + 1)
+                if m_ is None:
+                    return None
+                if m_[0] == 'comp':
+                    return ('comp', 'bad' if m_[1] == 'ok' else 'ok')
+                return (m_[0], NEG.get(m_[1], 'not(%s)' % m_[1]))
+            if e.get('k') == 'MCall' and e.get('m') in ('all', 'any') and e['args'] and e['args'][0].get('k') == 'Closure':
+                m_ = meaning(f, tail_of(e['args'][0]['body']), depth + 1)
+                if m_ is None:
+                    return None
+                recv = pp(e['recv'], maxlen=120)
+                narrowed = re.search(r'\b(skip|take|filter|step_by|rev|last|first|skip_while|take_while)\b', recv)
+                if m_[0] == 'comp' and e['recv'].get('k') == 'MCall' and e['recv'].get('m') == 'components' and not narrowed:
+                    # all(ok) -> all-ok ; any(bad) -> some-bad ; the other two combinations say something else
+                    if (e['m'], m_[1]) == ('all', 'ok'):
+                        return ('path', 'all-ok')
+                    if (e['m'], m_[1]) == ('any', 'bad'):
+                        return ('path', 'some-bad')
+                    return ('path', 'other:%s(%s)' % (e['m'], m_[1]))
+                if m_[0] == 'path' and 'sources' in recv and not narrowed:
+                    if (e['m'], m_[1]) == ('any', 'some-bad'):
+                        return ('srcs', 'exists-bad')
+                    if (e['m'], m_[1]) == ('all', 'all-ok'):
+                        return ('srcs', 'all-good')
+                    return ('srcs', 'other:%s(%s)' % (e['m'], m_[1]))
+                return None
+            if e.get('k') == 'Call':
+                g = B.fn(H.callee(e) or H.callee_decl(e) or '?')
+                if g is not None and g.get('body') is not None and g is not f:
+                    return meaning(g, tail_of(g['body']), depth + 1)
+            if e.get('k') == 'MCall' and e.get('m') in ('all', 'any') and e['args'] and e['args'][0].get('k') == 'Path':
+                # `.any(is_outer_path)` / `.all(is_inner_path)`: a helper used as the predicate
+                g = B.fn(e['args'][0].get('def') or '?')
+                if g is not None and g.get('body') is not None:
+                    m_ = meaning(g, tail_of(g['body']), depth + 1)
+                    recv = pp(e['recv'], maxlen=120)
+                    if m_ is not None and m_[0] == 'path' and 'sources' in recv:
+                        if (e['m'], m_[1]) == ('any', 'some-bad'):
+                            return ('srcs', 'exists-bad')
+                        if (e['m'], m_[1]) == ('all', 'all-ok'):
+                            return ('srcs', 'all-good')
+                        return ('srcs', 'other:%s(%s)' % (e['m'], m_[1]))
+            return None
+        # the refusal: an `if A && Q { return Err }` in generate_ui with A = output_directory.is_some() and Q meaning 'exists-bad'
+        the_if = None
+        qm = None
+        for n in walk(gu['body']):
+            if n.get('k') != 'If':
+                continue
+            cond = H.strip_refs(n['c'])
+            parts = []
+            todo = [cond]
+            while todo:
+                x = H.strip_refs(todo.pop())
+                if x.get('k') == 'Binary' and x.get('op') == 'And':
+                    todo += [x['l'], x['r']]
+                else:
+                    parts.append(x)
+            ms = [(x, meaning(gu, x)) for x in parts]
+            if any(m_ is not None and m_[0] == 'srcs' for _, m_ in ms) or any(any(y is filt for y in walk(x)) for x in parts):
+                the_if = n
+                qm = next((m_ for _, m_ in ms if m_ is not None and m_[0] == 'srcs'), None)
+                others = [x for x, m_ in ms if m_ is None or m_[0] != 'srcs']
+                break
         if the_if is not None:
-            cond = the_if['c']
-            ok_and = cond.get('k') == 'Binary' and cond.get('op') == 'And'
-            left = pp(cond['l']) if ok_and else ''
-            lnode = cond['l'] if ok_and else {}
-            is_some = (lnode.get('k') == 'MCall' and lnode.get('m') == 'is_some' and lnode['recv'].get('k') == 'Field'
-                       and lnode['recv'].get('f') == 'output_directory')
-            ck.ob('R15.1', 'guarded-by-output-directory-is-some', ok_and and is_some, B.loc(the_if), 'condition: %s && ..' % left)
+            ok_q = qm == ('srcs', 'exists-bad')
+            ck.ob('R15.1', 'refused-iff-some-source-has-a-bad-component', ok_q, B.loc(the_if),
+                  'the refusal test means: some source has a component other than CurDir / Normal (over all sources, all components)' if ok_q else
+                  'the refusal test means `%s`, not "some source has a component that is neither CurDir nor Normal": escaping or absolute sources get through (or every run is refused)' % (qm[1] if qm else 'not understood'))
+            is_some = len(others) == 1 and others[0].get('k') == 'MCall' and others[0].get('m') == 'is_some' and H.strip_refs(others[0]['recv']).get('k') == 'Field' \
+                and H.strip_refs(others[0]['recv']).get('f') == 'output_directory'
+            ck.ob('R15.1', 'guarded-by-output-directory-is-some', is_some, B.loc(the_if), 'the only other conjunct is args.output_directory.is_some()')
             rets = [n for n in walk(the_if['then']) if n.get('k') == 'Ret']
             ok_ret = bool(rets) and all(r.get('e', {}).get('k') == 'Call' and (r['e'].get('def') or '').endswith('Result::Err') for r in rets)
             ck.ob('R15.1', 'refusal-returns-err', ok_ret, B.loc(the_if), 'then-branch returns Err')
@@ -143,7 +222,7 @@ def run(ck):
                         ck.ob('R15.1', 'refusal-dominates|%s' % callee, H.lexically_precedes_dominating(gu, the_if, c), B.loc(c),
                               'the refusal precedes %s(..)' % callee)
         else:
-            ck.ob('R15.1', 'filter-in-if', False, B.loc(filt), 'filter is not the condition of an if')
+            ck.ob('R15.1', 'filter-in-if', False, B.loc(filt), 'the component filter is not part of the condition of an `if` in generate_ui')
 
     # ---- R15.2 who may write ------------------------------------------------
     n_calls = 0
